@@ -1,0 +1,127 @@
+//go:build verif
+
+package pool
+
+import (
+	"hash/fnv"
+	"sync/atomic"
+
+	"github.com/plgd-dev/go-coap/v3/message"
+	"github.com/plgd-dev/go-coap/v3/message/codes"
+)
+
+// VerifObserver is told about the life cycle of pooled messages (verification harness only).
+type VerifObserver interface {
+	// Acquire: m was taken out of the pool for reuse (fresh allocations are not reported).
+	Acquire(p *Pool, m *Message)
+	// Release: ReleaseMessage(m) was called.
+	Release(p *Pool, m *Message)
+	// Pooled: m was reset and is about to be stored in the pool.
+	Pooled(p *Pool, m *Message)
+}
+
+var verifObserver atomic.Pointer[VerifObserver]
+
+// SetVerifObserver installs the observer (nil removes it).
+func SetVerifObserver(o VerifObserver) {
+	if o == nil {
+		verifObserver.Store(nil)
+		return
+	}
+	verifObserver.Store(&o)
+}
+
+func verifAcquire(p *Pool, m *Message) {
+	if o := verifObserver.Load(); o != nil {
+		(*o).Acquire(p, m)
+	}
+}
+
+func verifRelease(p *Pool, m *Message) {
+	if o := verifObserver.Load(); o != nil {
+		(*o).Release(p, m)
+	}
+}
+
+func verifPooled(p *Pool, m *Message) {
+	if o := verifObserver.Load(); o != nil {
+		(*o).Pooled(p, m)
+	}
+}
+
+// VerifPoison fills every buffer a pooled (reset) message retains with b.
+func (r *Message) VerifPoison(b byte) {
+	fill := func(s []byte) {
+		s = s[:cap(s)]
+		for i := range s {
+			s[i] = b
+		}
+	}
+	fill(r.origValueBuffer)
+	fill(r.bufferUnmarshal)
+	fill(r.bufferMarshal)
+	opts := r.msg.Options[:cap(r.msg.Options)]
+	for i := range opts {
+		opts[i] = message.Option{ID: message.OptionID(uint16(b)<<8 | uint16(b))}
+	}
+}
+
+// VerifCheckPoison reports what differs from the state VerifPoison left behind ("" = intact).
+func (r *Message) VerifCheckPoison(b byte) string {
+	check := func(name string, s []byte) string {
+		s = s[:cap(s)]
+		for i := range s {
+			if s[i] != b {
+				return name + " buffer"
+			}
+		}
+		return ""
+	}
+	for _, c := range []string{check("value", r.origValueBuffer), check("unmarshal", r.bufferUnmarshal), check("marshal", r.bufferMarshal)} {
+		if c != "" {
+			return c
+		}
+	}
+	opts := r.msg.Options[:cap(r.msg.Options)]
+	for i := range opts {
+		if opts[i].ID != message.OptionID(uint16(b)<<8|uint16(b)) || opts[i].Value != nil {
+			return "option array"
+		}
+	}
+	switch {
+	case len(r.msg.Options) != 0:
+		return "option list length"
+	case r.msg.Token != nil:
+		return "token"
+	case r.msg.Code != codes.Empty:
+		return "code"
+	case r.msg.MessageID != -1:
+		return "message ID"
+	case r.msg.Type != message.Unset:
+		return "type"
+	case r.msg.Payload != nil || r.body != nil:
+		return "payload/body"
+	case r.ctx != nil:
+		return "context"
+	case r.isModified:
+		return "modified flag"
+	case r.controlMessage != nil:
+		return "control message"
+	}
+	return ""
+}
+
+// VerifFingerprint hashes the visible content of a message (for messages that were released
+// but not stored because the pool was full).
+func (r *Message) VerifFingerprint() uint64 {
+	h := fnv.New64a()
+	w := func(b []byte) { _, _ = h.Write(b); _, _ = h.Write([]byte{0xff, byte(len(b))}) }
+	w([]byte{byte(r.msg.Code), byte(r.msg.Code >> 8), byte(r.msg.MessageID), byte(r.msg.MessageID >> 8), byte(r.msg.Type)})
+	w(r.msg.Token)
+	for _, o := range r.msg.Options {
+		w([]byte{byte(o.ID), byte(o.ID >> 8)})
+		w(o.Value)
+	}
+	w(r.msg.Payload)
+	return h.Sum64()
+}
